@@ -112,6 +112,10 @@ func (c *rlCreds) universe(sc int, names []string) [][2]string {
 	return out
 }
 
+// rlSabotage (binding self-test only): configuration "n/v" is handed to the proxy with other passwords than the
+// reference believes.  Set per case, replay is sequential.
+var rlSabotage string
+
 func rlConfig(creds *rlCreds, sc int, n string, v int) *models.Namespace {
 	cfg := &models.Namespace{
 		Name:              n,
@@ -122,7 +126,7 @@ func rlConfig(creds *rlCreds, sc int, n string, v int) *models.Namespace {
 		Slices: []*models.Slice{{Name: "s0", UserName: "root", Password: "root", Master: "127.0.0.1:1",
 			Capacity: 1, MaxCapacity: 1, IdleTimeout: 3600}},
 	}
-	sabotage := os.Getenv("VERIF_RELOAD_SABOTAGE") == fmt.Sprintf("%s/%d", n, v) // binding self-test only
+	sabotage := rlSabotage != "" && rlSabotage == fmt.Sprintf("%s/%d", n, v)
 	for _, p := range creds.of(sc, n, v) {
 		if sabotage {
 			p[1] += "~" // the proxy gets another password than the reference believes
@@ -140,7 +144,7 @@ var rlVerified sync.Map
 // then the master address is emptied so that no backend node exists and nothing is ever dialled.
 func rlBuild(creds *rlCreds, sc int, n string, v int) (*models.Namespace, error) {
 	cfg := rlConfig(creds, sc, n, v)
-	key := fmt.Sprintf("%d/%s/%d", sc, n, v)
+	key := fmt.Sprintf("%d/%s/%d/%s", sc, n, v, rlSabotage)
 	if _, ok := rlVerified.Load(key); !ok {
 		if err := cfg.Verify(); err != nil {
 			return nil, fmt.Errorf("configuration %s rejected by models.Namespace.Verify: %v", key, err)
@@ -153,22 +157,24 @@ func rlBuild(creds *rlCreds, sc int, n string, v int) (*models.Namespace, error)
 }
 
 var (
-	rlStatsOnce sync.Once
-	rlStats     *StatisticManager
+	rlStatsMu sync.Mutex
+	rlStats   *StatisticManager
 )
 
+// rlSharedStats: one bare StatisticManager for all managers of the process.  Its SQLResponsePercentile map is
+// filled for every namespace name before any operation runs, so that ReloadNamespacePrepare only reads it
+// (the code writes the map without a lock).
 func rlSharedStats(names []string) *StatisticManager {
-	rlStatsOnce.Do(func() {
+	rlStatsMu.Lock()
+	defer rlStatsMu.Unlock()
+	if rlStats == nil {
 		log.SetGlobalLogger(rlNullLogger{})
 		rlStats = NewStatisticManager()
 		rlStats.SQLResponsePercentile = make(map[string]*SQLResponse)
-		for _, n := range []string{"n1", "n2", "n3", "n4"} {
-			rlStats.SQLResponsePercentile[n] = NewSQLResponse(n)
-		}
-	})
+	}
 	for _, n := range names {
 		if _, ok := rlStats.SQLResponsePercentile[n]; !ok {
-			panic("namespace name outside the prepared set: " + n)
+			rlStats.SQLResponsePercentile[n] = NewSQLResponse(n)
 		}
 	}
 	return rlStats
@@ -243,6 +249,14 @@ func (r *rlManager) do(creds *rlCreds, sc int, op, n string, v int) (outcome str
 			var cfg *models.Namespace
 			cfg, err = rlBuild(creds, sc, n, v)
 			if err == nil {
+				err = r.m.ReloadNamespacePrepare(cfg)
+			}
+		case "badprepare":
+			// a configuration the proxy rejects (NewNamespace: unparsable slow_sql_time); version 1's users
+			var cfg *models.Namespace
+			cfg, err = rlBuild(creds, sc, n, 1)
+			if err == nil {
+				cfg.SlowSQLTime = "not-a-number"
 				err = r.m.ReloadNamespacePrepare(cfg)
 			}
 		case "commit":
@@ -343,11 +357,11 @@ type rlStep struct {
 	Op      string
 	N       string
 	V       int
-	Out     string // outcome the I-level predicts
-	Allowed bool   // may a commit succeed here (something was prepared for N)
-	Want    int    // the version a successful commit must activate
-	Exp     []int  // P-level: visible state after the step (along the predicted outcomes)
-	Iact    []int  // I-level: what the code is predicted to show
+	Out     string     // outcome the I-level predicts
+	Allowed bool       // may a commit succeed here (something was prepared for N)
+	Want    int        // the version a successful commit must activate
+	Exp     []int      // P-level: visible state after the step (along the predicted outcomes)
+	Iact    []int      // I-level: what the code is predicted to show
 	Ptr     [][]string // P-level: reference directory <<namespace, user, password>> (C29 runs)
 	Iauth   [][]string // I-level: what the code-shaped directory is predicted to accept (C29 runs)
 }
@@ -373,10 +387,11 @@ func (s *rlStep) UnmarshalJSON(b []byte) error {
 }
 
 type rlCase struct {
-	Sc    int      `json:"sc"`
-	Ns    []string `json:"ns"`
-	Init  []int    `json:"init"`
-	Steps []rlStep `json:"steps"`
+	Sabotage string   `json:"sabotage,omitempty"`
+	Sc       int      `json:"sc"`
+	Ns       []string `json:"ns"`
+	Init     []int    `json:"init"`
+	Steps    []rlStep `json:"steps"`
 }
 
 func rlEq(a, b []int) bool {
@@ -416,6 +431,9 @@ func rlShape(c *rlCase, i int, before [][]int) (string, map[string]string) {
 	for j := start; j <= i; j++ {
 		s := c.Steps[j]
 		if s.Op == "delete" && j != i && before[j][idxOf[s.N]] == 0 {
+			continue
+		}
+		if s.Op == "badprepare" && j != i {
 			continue
 		}
 		if s.Op == "prepare" {
@@ -472,7 +490,7 @@ type rlCounters struct {
 }
 
 // replayManager: one behaviour on a real Manager.
-func rlReplayManager(creds *rlCreds, c *rlCase, res *verifkit.Result, cnt *rlCounters, trace *verifkit.Out, id int, handshake bool, prop string, usePtr bool) {
+func rlReplayManager(creds *rlCreds, c *rlCase, res *verifkit.Result, cnt *rlCounters, trace *verifkit.Out, id int, handshake bool, prop string, usePtr bool, countDrift bool) {
 	r, err := rlNewManager(creds, c.Sc, c.Ns, c.Init, true)
 	if err != nil {
 		res.Dev(prop+" harness manager-setup-failed", "%v", err)
@@ -504,11 +522,21 @@ func rlReplayManager(creds *rlCreds, c *rlCase, res *verifkit.Result, cnt *rlCou
 		}
 		// --- I-level faithfulness (MODEL-DRIFT, never a verdict)
 		onPath := insync && out == st.Out
-		if insync && (out != st.Out || !rlEq(got, st.Iact)) {
+		if countDrift && insync && (out != st.Out || !rlEq(got, st.Iact)) {
 			cnt.drift++
 			if cnt.driftExample == "" {
 				cnt.driftExample = fmt.Sprintf("case %d step %d %s(%s,%d): I-level predicts %s %v, code gives %s %v (%s)", id, i, st.Op, st.N, st.V, st.Out, st.Iact, out, got, detail)
 			}
+		}
+		if st.Op == "badprepare" && out == "ok" {
+			// the proxy accepted a configuration it is modelled to reject: the reference's bookkeeping of "last prepared" no longer applies
+			if !rlEq(got, tracked) {
+				mapDev = true
+				res.Dev(prop+" prepare changes the visible configuration", "step %d prepare(%s, rejected configuration) %s: visible %v -> %v", i, st.N, out, tracked, got)
+			}
+			writeTrace()
+			cnt.unexaminedAfterDrift += len(c.Steps) - i - 1
+			return
 		}
 		if st.Op == "prepare" && out != "ok" {
 			// the reference's "last prepared" (fields allowed / want of the later steps) assumes this prepare succeeded
@@ -615,7 +643,7 @@ func rlReplayManager(creds *rlCreds, c *rlCase, res *verifkit.Result, cnt *rlCou
 			}
 			wantAuth = fromTLC
 		}
-		seenAuth := rlTriples(creds, c.Sc, c.Ns, got)  // what would belong to the observed namespace map
+		seenAuth := rlTriples(creds, c.Sc, c.Ns, got) // what would belong to the observed namespace map
 		predicted := map[[2]string]string{}
 		for _, t := range st.Iauth {
 			if len(t) == 3 {
@@ -633,7 +661,7 @@ func rlReplayManager(creds *rlCreds, c *rlCase, res *verifkit.Result, cnt *rlCou
 					cnt.hsProbes++
 				}
 				a := fn(p[0], p[1])
-				if usePtr && onPath && insync && a != predicted[p] {
+				if countDrift && usePtr && onPath && insync && a != predicted[p] {
 					// I-level faithfulness of the code-shaped directory (MODEL-DRIFT, never a verdict)
 					cnt.authDrift++
 					if cnt.authDriftExample == "" {
@@ -841,12 +869,13 @@ func TestVerifReloadReplay(t *testing.T) {
 			return err
 		}
 		res := &verifkit.Result{Case: i}
+		rlSabotage = c.Sabotage
 		var tr *verifkit.Out
 		if trace != nil && traceEvery > 0 && i%traceEvery == 0 {
 			tr = trace
 		}
 		pan, msg, stack := verifkit.Catch(func() {
-			rlReplayManager(creds, &c, res, cnt, tr, i, hsEvery > 0 && i%hsEvery == 0, prop, usePtr)
+			rlReplayManager(creds, &c, res, cnt, tr, i, (hsEvery > 0 && i%hsEvery == 0) || i >= keepFrom, prop, usePtr, i < keepFrom)
 		})
 		if pan {
 			res.Dev(prop+" harness panic outside an operation", "%s\n%s", msg, stack)
